@@ -52,8 +52,8 @@ func NewLinearlyInterpolatedMappingWithGamma(gamma, indexOffset float64) (*Linea
 			minNormalFloat64*adjustedGamma,
 		),
 		maxIndexableValue: math.Min(
-			math.Exp2((math.MaxInt32-indexOffset)/multiplier-1),       // so that index <= MaxInt32
-			math.Exp(expOverflow)/(2*adjustedGamma)*(adjustedGamma+1), // so that math.Exp does not overflow
+			math.Exp2((math.MaxInt32-indexOffset)/multiplier-1), // so that index <= MaxInt32
+			math.Exp(expOverflow)/2*(1+1/adjustedGamma),         // so that math.Exp does not overflow
 		),
 	}
 	return &m, nil
